@@ -275,7 +275,7 @@ Definition match_orders (tb : tiebreak) (cf : config) (b : book) (ans : list ana
                    | Some r =>
                        let '(o1, tr', done) := on_book tb (client_of cf (so_strat o)) b r tr o in
                        let o2 := if done then exec_complete (cf_complete cf) (b_pt b) o1 else o1 in
-                       (upd_order (so_name o2) (fun _ => o2) os,
+                       (upd_order (so_name o) (fun _ => o2) os,
                         map (fun e => if fst e =? so_sel o then (fst e, tr') else e) lk)
                    end
                  end) (sort_orders live) (orders, lookup0) in
@@ -312,7 +312,7 @@ Definition process_sim_orders (tb : tiebreak) (cf : config) (b : book) (ans : li
                    | Some r =>
                        let '(o1, tr', done) := on_book tb (client_of cf (so_strat o)) b r tr o in
                        let o2 := if done then exec_complete (cf_complete cf) (b_pt b) o1 else o1 in
-                       (upd_order (so_name o2) (fun _ => o2) os,
+                       (upd_order (so_name o) (fun _ => o2) os,
                         map (fun e => if fst e =? so_sel o then (fst e, tr') else e) lk)
                    end
                  end) (sort_orders live) (orders, lookup0))
